@@ -54,7 +54,7 @@ def fam_C01(tier, seed):
     rng = random.Random(seed)
     full = tier == "thorough"
     ps = []
-    releases = (None, 0, 1, 2)
+    releases = (None, 0, 1, 2, -2)      # (a release date in the past binds nothing: the task still starts at 0 or later)
     dues = [(None, True), (0, True), (1, True), (3, True), (1, False), (3, False)]
     grid = []
     for (kind, kw), optional, rel, (due, dl), H, uh in itertools.product(
@@ -67,10 +67,11 @@ def fam_C01(tier, seed):
     # contexts: the task under test next to other model elements
     ctx = []
     for (kind, kw), optional, rel, (due, dl), context in itertools.product(
-            task_shapes(False), (False, True), (None, 1), [(None, True), (3, True)],
-            ("worker", "select", "cumul", "precedence", "buffer", "two", "workamount")):
+            task_shapes(False), (False, True), (None, 1, -1), [(None, True), (3, True)],
+            ("worker", "select", "cumul", "precedence", "buffer", "two", "workamount", "or-precedence", "not-precedence",
+             "optional-precedence")):
         ctx.append((kind, kw, optional, rel, due, dl, context))
-    for (kind, kw, optional, rel, due, dl, context) in sample(rng, ctx, None if full else 160):
+    for (kind, kw, optional, rel, due, dl, context) in sample(rng, ctx, None if full else 200):
         b = PB(4, tag="ctx-" + context)
         a = b.task("A", kind, optional=optional, release=rel, due=due, deadline=dl, **kw)
         if context == "worker":
@@ -93,6 +94,18 @@ def fam_C01(tier, seed):
         elif context == "precedence":
             c = b.task("B", "F", dur=1)
             b.con("TaskPrecedence", before=a, after=c, offset=0, kind="lax")
+        elif context in ("or-precedence", "not-precedence", "optional-precedence"):
+            # a precedence that does not have to hold (operand of a connective / optional constraint): the task's own
+            # window (start >= 0, end <= horizon) does not lean on it
+            from problems import o_con
+            c = b.task("B", "F", dur=2)
+            if context == "or-precedence":
+                b.con("Or", xs=[o_con(b.con("TaskPrecedence", before=a, after=c, offset=0, kind="lax")),
+                                o_con(b.con("TaskPrecedence", before=c, after=a, offset=0, kind="lax"))])
+            elif context == "not-precedence":
+                b.con("Not", x=o_con(b.con("TaskPrecedence", before=a, after=c, offset=0, kind="lax")))
+            else:
+                b.con("TaskPrecedence", before=a, after=c, offset=1, kind="lax", optional=True)
         elif context == "buffer":
             c = b.task("B", "F", dur=1)
             bf = b.buffer("Bf", initial=1, lower=0)
